@@ -486,6 +486,7 @@ theorem handle_sim (k : Consts) (m : List String) (kw : CKw) (a b : State) (h : 
   | ops n rs => exact runOps_sim k m rs a b h
   | actionx x => exact h
   | endactio => exact h
+  | compord c => exact h
 
 theorem addAction_sim (a b : State) (n : String) (body : List CKw) (h : Sim a b) : Sim (addAction a n body) (addAction b n body) :=
   ⟨by simp only [addAction, h.p], h.c, h.st⟩
@@ -517,12 +518,16 @@ theorem runKws_sim (k : Consts) (kws : List CKw) (acc : Option (String × List C
       | endactio =>
         simp only [runKws, handle]
         exact ih _ a b h
+      | compord c =>
+        simp only [runKws, handle]
+        exact ih _ a b h
     | some v =>
       obtain ⟨n, ac⟩ := v
       cases kw with
       | endactio => simp only [runKws]; exact ih _ _ _ (addAction_sim a b n ac h)
       | ops n' rs => simp only [runKws]; exact ih _ a b h
       | actionx n' => simp only [runKws]; exact ih _ a b h
+      | compord c => simp only [runKws]; exact rfl
 
 theorem endReport_sim (a b : State) (h : Sim a b) : Sim (endReport a) (endReport b) := by
   refine ⟨h.p, h.c, fun w => ?_⟩
@@ -536,17 +541,20 @@ theorem closeBlock_sim (a b : State) (h : Sim a b) : Sim (closeBlock a) (closeBl
 theorem createNext_sim (a b : State) (h : Sim a b) : Sim (createNext a) (createNext b) :=
   ⟨by simp only [createNext, h.p], by simp only [createNext, h.c], h.st⟩
 
+theorem beginBlock_sim (a b : State) (blk : List CKw) (h : Sim a b) : Sim (beginBlock a blk) (beginBlock b blk) :=
+  ⟨by simp only [beginBlock, createNext, h.p], by simp only [beginBlock, createNext, h.c], h.st⟩
+
 theorem stepBlock_sim (k : Consts) (blk : List CKw) (a b : State) (h : Sim a b) :
     ExRel Sim (stepBlock k a blk) (stepBlock k b blk) := by
   unfold stepBlock
-  have := runKws_sim k blk none _ _ (createNext_sim a b h)
-  cases ha : runKws k none (createNext a) blk with
+  have := runKws_sim k blk none _ _ (beginBlock_sim a b blk h)
+  cases ha : runKws k none (beginBlock a blk) blk with
   | error e =>
-    cases hb : runKws k none (createNext b) blk with
+    cases hb : runKws k none (beginBlock b blk) blk with
     | error e' => rw [ha, hb] at this; exact this
     | ok b' => rw [ha, hb] at this; exact this.elim
   | ok a' =>
-    cases hb : runKws k none (createNext b) blk with
+    cases hb : runKws k none (beginBlock b blk) blk with
     | error e' => rw [ha, hb] at this; exact this.elim
     | ok b' => rw [ha, hb] at this; exact closeBlock_sim a' b' this
 
@@ -818,6 +826,7 @@ theorem Rel_handle (k : Consts) (m : List String) (kw : CKw) (hnc : noConnKw kw 
   | ops n rs => exact Rel_runOps k m rs hnc a b h
   | actionx x => exact h
   | endactio => exact h
+  | compord c => exact h
 
 theorem Rel_runBody (k : Consts) (body : List CKw) (hnc : body.all noConnKw = true) (a b : State) (h : Rel a b) :
     ExRel Rel (runBody k a body) (runBody k b body) := by
@@ -895,19 +904,28 @@ theorem substBody_noConn (ws : List String) (body : List CKw) (h : body.all noCo
       exact substOp_noConn ws r0 (h.1 r0 hr0) x hx
     | actionx a => rfl
     | endactio => rfl
+    | compord c => rfl
 
-/-- General form (used for sequences): the apply side may hold a snapshot `sn` at step n that
-is only `Sim` to the closed state of block n, snapshots before n that are arbitrary (`saA`), and
-stored blocks that agree with the inlined deck after n only. -/
-theorem applyAction_sim_inline (k : Consts) (a : List (List CKw)) (blk : List CKw) (c : List (List CKw))
+/-- What the two variants of the apply-equals-inline argument need from the body: its handlers
+succeed on the stored (closed) snapshot only if they succeed on the state before closing, and
+closing the two results gives `Sim` states. -/
+def BodyTransfer (k : Consts) (sn s1 : State) (body' : List CKw) : Prop :=
+  ∀ t', runBody k sn body' = .ok t' → ∃ t, runBody k s1 body' = .ok t ∧ Sim (closeBlock t') (closeBlock t)
+
+/-- Core of apply = inline, for any body whose handlers transfer (`BodyTransfer`): the apply side
+may hold a snapshot `sn` at step n that is only `Sim` to the closed state of block n, snapshots
+before n that are arbitrary (`saA`), and stored blocks that agree with the inlined deck after n
+only. -/
+theorem applyAction_sim_inline_core (k : Consts) (a : List (List CKw)) (blk : List CKw) (c : List (List CKw))
     (bsA : List (List CKw)) (sa saA : List State) (s1 sn : State) (tail0 : List State)
     (body : List CKw) (W : List String) (bs' : List (List CKw)) (ss' : List State)
     (ha : runFrom k (init k) a = .ok sa)
-    (h1 : runKws k none (createNext (sa.getLastD (init k))) blk = .ok s1)
+    (h1 : runKws k none (beginBlock (sa.getLastD (init k)) blk) blk = .ok s1)
     (hlen : saA.length = a.length)
     (hsn : Sim sn (closeBlock s1))
     (hdrop : bsA.drop (a.length + 1) = c)
-    (hp : body.all plainKw = true) (hnc : body.all noConnKw = true)
+    (hp : body.all plainKw = true)
+    (hbody : BodyTransfer k sn s1 (substBody (sortW (names s1.p.wells) W) body))
     (happ : applyAction k bsA (saA ++ sn :: tail0) a.length body W = .ok (bs', ss')) :
     ∃ sn' tail x tail2, ss' = saA ++ sn' :: tail ∧
       run k (a ++ (blk ++ substBody (sortW (names s1.p.wells) W) body) :: c) = .ok (sa ++ x :: tail2) ∧
@@ -939,19 +957,45 @@ theorem applyAction_sim_inline (k : Consts) (a : List (List CKw)) (blk : List CK
         | ok t' =>
           rw [hb] at hA
           simp only [Except.ok.injEq] at hA
-          have hrel := Rel_runBody k (substBody (sortW (names s1.p.wells) W) body)
-            (substBody_noConn (sortW (names s1.p.wells) W) body hnc) sn s1 (Rel_of_sim_close hsn)
-          obtain ⟨t, ht, hrt⟩ := hrel.ok_left hb
+          obtain ⟨t, ht, hrt⟩ := hbody t' hb
           have hsim : Sim sn' (closeBlock t) := by
             have h0 : Sim sn' (closeBlock t') := by rw [← hA]; exact ⟨rfl, rfl, fun _ => rfl⟩
-            exact h0.trans (Rel_close hrt)
+            exact h0.trans hrt
           obtain ⟨tail2, hT2, hall⟩ := (runFrom_sim k c sn' (closeBlock t) hsim).ok_left hT
           refine ⟨sn', tail, closeBlock t, tail2, hss.symm, ?_, hsim, hall⟩
           unfold run
           rw [runFrom_append ha]
-          have hk : runKws k none (createNext (sa.getLastD (init k))) (blk ++ substBody (sortW (names s1.p.wells) W) body) = .ok t := by
-            rw [runKws_append k blk _ none _ s1 h1, runKws_plain k s1 _ (substBody_plain _ body hp), ht]
+          have hk : runKws k none (beginBlock (sa.getLastD (init k)) (blk ++ substBody (sortW (names s1.p.wells) W) body))
+              (blk ++ substBody (sortW (names s1.p.wells) W) body) = .ok t := by
+            rw [beginBlock_append_plain _ blk _ (substBody_plain _ body hp),
+              runKws_append k blk _ none _ s1 h1, runKws_plain k s1 _ (substBody_plain _ body hp), ht]
           simp only [runFrom, stepBlock, hk, hT2]
+
+/-- Bodies without connection keywords transfer: the commutation invariant `Rel`. -/
+theorem bodyTransfer_noConn (k : Consts) (sn s1 : State) (body' : List CKw) (hsn : Sim sn (closeBlock s1))
+    (hnc : body'.all noConnKw = true) : BodyTransfer k sn s1 body' := by
+  intro t' hb
+  obtain ⟨t, ht, hrt⟩ := (Rel_runBody k body' hnc sn s1 (Rel_of_sim_close hsn)).ok_left hb
+  exact ⟨t, ht, Rel_close hrt⟩
+
+/-- General form (used for sequences): the apply side may hold a snapshot `sn` at step n that
+is only `Sim` to the closed state of block n, snapshots before n that are arbitrary (`saA`), and
+stored blocks that agree with the inlined deck after n only. -/
+theorem applyAction_sim_inline (k : Consts) (a : List (List CKw)) (blk : List CKw) (c : List (List CKw))
+    (bsA : List (List CKw)) (sa saA : List State) (s1 sn : State) (tail0 : List State)
+    (body : List CKw) (W : List String) (bs' : List (List CKw)) (ss' : List State)
+    (ha : runFrom k (init k) a = .ok sa)
+    (h1 : runKws k none (beginBlock (sa.getLastD (init k)) blk) blk = .ok s1)
+    (hlen : saA.length = a.length)
+    (hsn : Sim sn (closeBlock s1))
+    (hdrop : bsA.drop (a.length + 1) = c)
+    (hp : body.all plainKw = true) (hnc : body.all noConnKw = true)
+    (happ : applyAction k bsA (saA ++ sn :: tail0) a.length body W = .ok (bs', ss')) :
+    ∃ sn' tail x tail2, ss' = saA ++ sn' :: tail ∧
+      run k (a ++ (blk ++ substBody (sortW (names s1.p.wells) W) body) :: c) = .ok (sa ++ x :: tail2) ∧
+      Sim sn' x ∧ All2 Sim tail tail2 :=
+  applyAction_sim_inline_core k a blk c bsA sa saA s1 sn tail0 body W bs' ss' ha h1 hlen hsn hdrop hp
+    (bodyTransfer_noConn k sn s1 _ hsn (substBody_noConn _ body hnc)) happ
 
 
 /-- State-level core of `apply_eq_inline`: re-running the body's handlers on the *closed*
@@ -1041,7 +1085,7 @@ def bodiesOK (k : Consts) : List (List CKw) → List App → Bool
 /-- Decomposition of an accepted run at block n. -/
 theorem run_decompose (k : Consts) (a : List (List CKw)) (blk : List CKw) (c : List (List CKw)) (ss : List State)
     (h : run k (a ++ blk :: c) = .ok ss) :
-    ∃ sa s1 tl, runFrom k (init k) a = .ok sa ∧ runKws k none (createNext (sa.getLastD (init k))) blk = .ok s1 ∧
+    ∃ sa s1 tl, runFrom k (init k) a = .ok sa ∧ runKws k none (beginBlock (sa.getLastD (init k)) blk) blk = .ok s1 ∧
       ss = sa ++ closeBlock s1 :: tl ∧ sa.length = a.length := by
   unfold run at h
   have ha := runFrom_prefix h
@@ -1062,7 +1106,7 @@ theorem run_decompose (k : Consts) (a : List (List CKw)) (blk : List CKw) (c : L
       | ok tl =>
         rw [h2] at hb; simp only [Except.ok.injEq] at hb
         unfold stepBlock at h1
-        cases h3 : runKws k none (createNext ((ss.take a.length).getLastD (init k))) blk with
+        cases h3 : runKws k none (beginBlock ((ss.take a.length).getLastD (init k)) blk) blk with
         | error e => rw [h3] at h1; cases h1
         | ok s1 =>
           rw [h3] at h1; simp only [Except.ok.injEq] at h1
@@ -1224,16 +1268,20 @@ theorem runKws_mark_eq (k : Consts) (kws : List CKw) (acc : Option (String × Li
       | endactio =>
         simp only [runKws, handle] at h
         exact ih _ _ h
+      | compord c =>
+        simp only [runKws, handle] at h
+        exact ih _ _ h
     | some x =>
       obtain ⟨n, ac⟩ := x
       cases kw with
       | endactio => simp only [runKws] at h; rw [ih _ _ h]; rfl
       | ops n' rs => simp only [runKws] at h; exact ih _ _ h
       | actionx n' => simp only [runKws] at h; exact ih _ _ h
+      | compord c => simp only [runKws] at h; cases h
 
 theorem stepBlock_mark (k : Consts) (s s' : State) (b : List CKw) (h : stepBlock k s b = .ok s') : s'.mark = [] := by
   unfold stepBlock at h
-  cases hk : runKws k none (createNext s) b with
+  cases hk : runKws k none (beginBlock s b) b with
   | error e => rw [hk] at h; cases h
   | ok t =>
     rw [hk] at h; simp only [Except.ok.injEq] at h
